@@ -249,7 +249,8 @@ def lift(x):
         # within 1e-13 (relative) of a rational with denominator <= 10^6 is lifted as that rational, so that
         # concrete sub-computations done by the real code in float64 (1/3, 0.1, ...) stay consistent in exact arithmetic
         g = f.limit_denominator(10 ** 6)
-        if abs(g - f) <= fractions.Fraction(1, 10 ** 13) * abs(f):  # relative: tiny constants (machine eps, 1e-8) keep their exact value
+        if abs(g - f) <= fractions.Fraction(1, 10 ** 13) * max(1, abs(f)):  # absolute below 1: float noise such as 5.5e-17 IS zero here;
+            # machine constants that must keep their value (eps, tiny) have to be handed over as proxy constants by the stub that supplies them
             f = g
         return z3.RealVal(str(f))
     try:
